@@ -1,8 +1,182 @@
 import SigmaVerif.Model.B64
+import SigmaVerif.Lemmas.B64
+/-!
+# C04 — encoding modifiers (`base64offset`, `base64`, `wide`/`utf16le`/`utf16be`)
+
+Property theorems only; helper lemmas are in `SigmaVerif.Lemmas.B64`.
+-/
 namespace SigmaVerif.Props.C04
 open SigmaVerif.B64
 
-/-- the tables of the pinned tree satisfy the soundness condition -/
-theorem stdTables_sound : stdTables.sound = true := by decide
+/-! ## 1. Completeness of `base64offset` -/
+
+/-- For every prefix, payload and suffix (any lengths, any values) the value produced for alignment
+`|p| % 3` occurs in the Base64 text of the whole byte string — for every sound table. -/
+theorem b64offset_complete (T : Tables) (hT : T.sound = true) (p v s : List Byte) :
+    (b64offsetAt T v.length v (p.length % 3)) <:+: b64 (p ++ v ++ s) := by
+  unfold b64offsetAt
+  rw [slice_eq_window T hT p v s (List.replicate (p.length % 3) 32) (p.length % 3) rfl
+    List.length_replicate]
+  exact (List.drop_suffix _ _).isInfix.trans (List.take_prefix _ _).isInfix
+
+example : stdTables.sound = true := by decide
+example : b64offsetAt stdTables 3 [77, 97, 110] 1 = "1hb".toList := by decide
+example : b64offsetAt stdTables 3 [77, 97, 110] (([1] : List Byte).length % 3)
+    <:+: b64 ([1] ++ [77, 97, 110] ++ [5, 6]) :=
+  b64offset_complete stdTables (by decide) [1] [77, 97, 110] [5, 6]
+
+/-- the standard tables are the least sound ones -/
+theorem stdTables_minimal (T : Tables) (hT : T.sound = true) (i : Nat) (hi : i < 3) :
+    stdTables.starts.getD i 0 ≤ T.starts.getD i 0 ∧ stdTables.cuts.getD i 0 ≤ T.cuts.getD i 0 := by
+  simp only [Tables.sound, Bool.and_eq_true, decide_eq_true_eq] at hT
+  obtain ⟨⟨⟨⟨⟨⟨_, s0⟩, s1⟩, s2⟩, c0⟩, c1⟩, c2⟩ := hT
+  have h3 : i = 0 ∨ i = 1 ∨ i = 2 := by omega
+  rcases h3 with rfl | rfl | rfl
+  · exact ⟨s0, c0⟩
+  · exact ⟨s1, c1⟩
+  · exact ⟨s2, c2⟩
+
+example : (⟨[1, 2, 4], [3, 3, 5]⟩ : Tables).sound = true := by decide
+
+/-! ## 2. The value is made of payload bits only -/
+
+/-- no padding sign is ever emitted -/
+theorem b64offset_payload_only (T : Tables) (hT : T.sound = true) (v : List Byte) (i : Nat)
+    (hi : i < 3) : '=' ∉ b64offsetAt T v.length v i := by
+  intro hmem
+  obtain ⟨k, hk⟩ := List.mem_iff_getElem?.mp hmem
+  unfold b64offsetAt at hk
+  rw [getElem?_slice_b64] at hk
+  have hs := T.sound_starts hT i hi
+  have hc := T.sound_cuts hT i v.length
+  simp only [List.length_append, List.length_replicate] at hk
+  split at hk
+  · rename_i hlt
+    have hd := in_data i v.length 0 0 (T.starts.getD i 0 + k) (by omega)
+    have hd' : T.starts.getD i 0 + k < dataChars (List.replicate i 32 ++ v).length := by
+      simpa using hd
+    simp only [b64char, hd', ↓reduceIte, Option.some.injEq] at hk
+    exact alphabet_getD_ne_pad _ hk
+  · cases hk
+
+example : '=' ∈ b64 (List.replicate 1 32 ++ [77]) ∧ '=' ∉ b64offsetAt stdTables 1 [77] 1 := by
+  decide
+
+/-- The characters kept do not depend on the bytes in front: any `i` bytes (not only the spaces
+the code uses) give the same value.  No `Bytes` hypothesis is needed. -/
+theorem b64offset_prefix_irrelevant (T : Tables) (hT : T.sound = true) (v q : List Byte) (i : Nat)
+    (hi : i < 3) (hq : q.length = i) :
+    slice (b64 (q ++ v)) (T.starts.getD i 0) (T.cuts.getD ((v.length + i) % 3) 0)
+      = b64offsetAt T v.length v i := by
+  have hi' : i = q.length % 3 := by omega
+  unfold b64offsetAt
+  rw [slice_eq_window T hT q v [] q i hi' hq,
+    slice_eq_window T hT q v [] (List.replicate i 32) i hi' List.length_replicate]
+
+example : slice (b64 ([255, 255] ++ [77, 97])) 3 3 = b64offsetAt stdTables 2 [77, 97] 2 := by
+  decide
+
+/-- soundness of the table is needed for that: with `starts[1] = 1` the first kept character
+carries two bits of the byte in front -/
+theorem b64offset_prefix_relevant_if_unsound :
+    ∃ q v : List Byte, q.length = 1 ∧
+      slice (b64 (q ++ v)) 1 2 ≠ b64offsetAt ⟨[0, 1, 3], [0, 3, 2]⟩ v.length v 1 :=
+  ⟨[255], [255], rfl, by decide⟩
+
+/-! ## 3. The position-wise definition is RFC 4648 -/
+
+/-- holds for arbitrary `Nat` lists, in particular for byte strings (`Bytes x` is not needed) -/
+theorem b64_eq_spec (x : List Byte) : b64 x = b64Spec x := by
+  fun_induction b64Spec x
+  case case1 => rfl
+  case case2 a =>
+    simp [b64, encLen, List.range_succ_eq_map, b64char, dataChars, sextet, byteAt]
+  case case3 a b =>
+    simp [b64, encLen, List.range_succ_eq_map, b64char, dataChars, sextet, byteAt]
+  case case4 a b c rest ih => rw [b64_step, ih]
+
+example : b64Spec [77, 97, 110, 33] = "TWFuIQ==".toList := by decide
+
+/-! ## 4. Every non-trivial table bound is necessary
+
+(`0 ≤ starts[0]` and `0 ≤ cuts[0]` cannot be violated.)  Each table below differs from
+`stdTables` in exactly one entry, lowered by one. -/
+
+theorem starts1_needed :
+    ∃ p v s : List Byte, ¬ (b64offsetAt ⟨[0, 1, 3], [0, 3, 2]⟩ v.length v (p.length % 3)
+      <:+: b64 (p ++ v ++ s)) :=
+  ⟨[255], [255], [], by decide⟩
+
+theorem starts2_needed :
+    ∃ p v s : List Byte, ¬ (b64offsetAt ⟨[0, 2, 2], [0, 3, 2]⟩ v.length v (p.length % 3)
+      <:+: b64 (p ++ v ++ s)) :=
+  ⟨[255, 255], [255], [], by decide⟩
+
+theorem cuts1_needed :
+    ∃ p v s : List Byte, ¬ (b64offsetAt ⟨[0, 2, 3], [0, 2, 2]⟩ v.length v (p.length % 3)
+      <:+: b64 (p ++ v ++ s)) :=
+  ⟨[], [0], [255], by decide⟩
+
+theorem cuts2_needed :
+    ∃ p v s : List Byte, ¬ (b64offsetAt ⟨[0, 2, 3], [0, 3, 1]⟩ v.length v (p.length % 3)
+      <:+: b64 (p ++ v ++ s)) :=
+  ⟨[], [0, 0], [255], by decide⟩
+
+example : (⟨[0, 1, 3], [0, 3, 2]⟩ : Tables).sound = false ∧
+    (⟨[0, 2, 2], [0, 3, 2]⟩ : Tables).sound = false ∧
+    (⟨[0, 2, 3], [0, 2, 2]⟩ : Tables).sound = false ∧
+    (⟨[0, 2, 3], [0, 3, 1]⟩ : Tables).sound = false := by decide
+
+/-! ## 5. The wide / utf16 trick -/
+
+/-- the strict decoder is inverted by the encoder: whatever decodes re-encodes to the same bytes -/
+theorem utf8enc_dec (b : List Byte) (t : List CP) (h : utf8dec b = some t) :
+    utf8enc t = some b :=
+  utf8enc_dec_aux b t h
+
+example : utf8dec [0x61, 0xC3, 0xA4, 0xE2, 0x82, 0xAC, 0xF0, 0x9F, 0x98, 0x80]
+    = some [0x61, 0xE4, 0x20AC, 0x1F600] := by decide
+
+/-- the modifier either rejects or yields a string whose UTF-8 bytes are the UTF-16 encoding of
+the payload -/
+theorem wide_bytes (be : Bool) (s t : List CP) (h : wideTrick be s = some t) :
+    ∃ b, utf16 be s = some b ∧ utf8enc t = some b := by
+  unfold wideTrick at h
+  split at h
+  · rename_i b hb
+    exact ⟨b, hb, utf8enc_dec b t h⟩
+  · cases h
+
+example : wideTrick false [0x41] = some [0x41, 0] := by decide
+-- a non-ASCII payload that is accepted: U+A4C3 ↦ C3 A4 ↦ "ä"; and one that is rejected: "ä"
+example : wideTrick false [0xA4C3] = some [0xE4] := by decide
+example : wideTrick false [0xE4] = none := by decide
+
+/-- every ASCII string is accepted and gets a NUL after (LE) / before (BE) each character -/
+theorem wide_ascii (be : Bool) (s : List CP) (h : ∀ c ∈ s, c < 128) :
+    wideTrick be s = some (s.flatMap (fun c => if be then [0, c] else [c, 0])) := by
+  unfold wideTrick
+  rw [utf16_ascii be s h]
+  apply utf8dec_ascii
+  intro b hb
+  rw [List.mem_flatMap] at hb
+  obtain ⟨c, hc, hbc⟩ := hb
+  have h' : ∀ c : Nat, c ∈ s → c < 128 := h
+  have := h' c hc
+  cases be <;> simp at hbc <;> omega
+
+example : wideTrick true [0x63, 0x6D, 0x64] = some [0, 0x63, 0, 0x6D, 0, 0x64] := by decide
+
+/-! ## 6. The character count is not a substitute for the byte count -/
+
+/-- payload "aä": 2 characters, 3 bytes; picking the cut by the character count breaks
+completeness (and emits padding) -/
+theorem b64offset_unsound_with_char_len :
+    ¬ (b64offsetAt stdTables 2 [97, 195, 164] 1 <:+: b64 ([0] ++ [97, 195, 164] ++ [0])) ∧
+    '=' ∈ b64offsetAt stdTables 2 [97, 195, 164] 1 := by
+  decide
+
+example : b64offsetAt stdTables 3 [97, 195, 164] 1 <:+: b64 ([0] ++ [97, 195, 164] ++ [0]) := by
+  decide
 
 end SigmaVerif.Props.C04
